@@ -783,7 +783,7 @@ pub fn run(env: &Env) -> i32 {
     rep.probe("C05-interface-field-directive-location", probe_ok("interface I { a: Int @deprecated }\ntype Query implements I { a: Int }"));
     rep.probe("C05-interface-field-unknown-type", probe_bad("interface I { a: Nope }\ntype Query { b: Int }"));
     rep.probe("C05-directive-recursion-false-positive", probe_ok("enum E { A @deprecated B @deprecated }\ndirective @d(x: E) on FIELD\ntype Query { a: Int }"));
-    rep.campaign("valid-schemas", env.cases(8_000, 150_000), (250, 1200), positive_case);
-    rep.campaign("single-fault", env.cases(20_000, 300_000), (300, 1200), negative_case);
+    rep.campaign("valid-schemas", env.cases(30_000, 300_000), (250, 1200), positive_case);
+    rep.campaign("single-fault", env.cases(80_000, 800_000), (300, 1200), negative_case);
     rep.finish()
 }
